@@ -2,7 +2,7 @@
 (diff_exp/sparse_markers_by_pair.py, sparse_markers_by_gene.py) under thinning of pairs and genes.
 
 1. MC   : SparseRel.tla, every 2 x 3 relation x every sequence of 2 thinning calls (keep lists of length 1-2
-          with repeats, in place or returning a copy): Shape, InRange, Dual (the views agree as long as no keep
+          with repeats and every full reordering of an axis; thorough: length 1-3; in place or returning a copy): Shape, InRange, Dual (the views agree as long as no keep
           list named an index twice), OnlyByResult (a view only changes to what the call produced).  DualAlways
           must be REFUTED by TLC (RepeatsBreakDuality: the row axis duplicates, the value axis keeps the last).
 2. S->C : every complete history of the model is replayed into a real SparseMarkersByPair and a real
@@ -112,14 +112,16 @@ def run(ctx):
         raise MachineryError('TLC did not refute DualAlways (RepeatsBreakDuality no longer modelled?)')
     ctx.part('mc', dual_always_refuted=True)
     cfg = open(os.path.join(sd, 'SparseRel_MC.cfg')).read() + 'CONSTRAINT Emit\n'
+    if not quick:
+        cfg = cfg.replace('MaxKeep = 2', 'MaxKeep = 3')
     res = run_tlc('SparseRel_MC', cfg_text=cfg, workers=1, timeout=3600)
     ctx.add_tlc('SparseRel_MC', res)
     if not res.ok:
         raise MachineryError(res.error_trace or res.stdout[-1500:])
     scns = [json.loads(t[1]) for t in res.tuples('SCN')]
     scns = list({json.dumps(s, sort_keys=True): s for s in scns}.values())
-    if quick:
-        scns = rng.sample(scns, min(len(scns), 2000))
+    n_model = len(scns)
+    scns = rng.sample(scns, min(len(scns), 2000 if quick else 150000))
     with cf.ProcessPoolExecutor(max_workers=8) as ex:
         outs = list(ex.map(_case, scns, chunksize=64))
     recs = []
@@ -140,7 +142,7 @@ def run(ctx):
         elif rec['side']:
             rej += 1
             ctx.report(f'clause:{rec["side"]}', f'{CL[rec["side"]]} - a0={rec["a0"]} calls={calls}', {'scenario': s})
-    ctx.part('s2c', histories=len(scns), rejected=rej)
+    ctx.part('s2c', histories_of_the_model=n_model, histories=len(scns), rejected=rej)
     if recs:
         ctx.sample({'scenario': scns[0], 'observed': recs[0]['events'][:1]})
         st = []
@@ -157,8 +159,7 @@ def run(ctx):
         ctx.cov['selftest'] = {'corrupted': len(st), 'rejected': len(st) - acc}
         if acc or not st:
             raise MachineryError('self-test: corrupted views accepted')
-    if not quick:
-        ctx.cov['exhaustive'] = True
+    ctx.cov['exhaustive'] = (len(scns) == n_model)
 
 
 def replay(ctx, path):
